@@ -670,16 +670,16 @@ PROPS["C40"] = dict(
 PROPS["C42"] = dict(
     corr_module="Corr.C42",
     streams={"vac": dict(runner="C42_run", in_t="C42_in", out_t="C42_out", shard=2, timeout=1200)},
-    n_quick=24, n_thorough=600,
+    n_quick=18, n_thorough=600,
     harness_timeout=3000,
-    rule="one real memory per case: 0-22 ops (puts of binary / text / chunked / embedded documents, payload and payload-less updates incl. two payload-less updates of one frame before a commit, deletes, commits, reopen; profile 2 adds a put larger than the room left in the log so the log region doubles and every payload moves; profile 5 = empty / tiny / everything deleted), final commit, then vacuum() (on the serving handle or on a fresh one) or doctor{vacuum:true, +rebuild_time/lex} and reopen; "
-         "model input = frame table with windows + file bytes [data start, footer offset) + data_end / cached_payload_end / footer offset / pending records read through hooks; compared = windows of all frames, payload bytes [data start, end of last payload), data_end, pending records, verify outcome; "
-         "oracle on the implementation alone: every column of every frame but its window (Debug of the Frame), content hash + stored bytes of active frames, (0,0) windows of inactive ones, contiguity, 13-17 queries (10 searches with / without sketch pre-filter incl. boolean / phrase / uri: field / no-match, timeline both ways, up to 3 vector searches) as sets, reopen, verify(deep) right after and after reopen, payload region / file size, put + commit after the vacuum (same session or after reopen) leaves all contents readable; "
+    rule="two scripted regression histories first (the witness of fixed finding F-C42-1: put 500 bytes; commit; update_frame(0, None) twice; commit; then vacuum() / doctor{vacuum}), then one real memory per case: 0-22 ops (puts of binary / text / chunked / embedded documents, payload and payload-less updates incl. two payload-less updates of one frame before a commit, deletes, commits, reopen; profile 2 adds a put larger than the room left in the log so the log region doubles and every payload moves -- one such history in the quick tier, all of profile 2 in thorough; profile 5 = empty / tiny / everything deleted), final commit, then vacuum() (on the serving handle or on a fresh one) or doctor{vacuum:true, +rebuild_time/lex} and reopen; "
+         "model input = frame table with windows + file bytes [data start, footer offset) + data_end / cached_payload_end / footer offset / pending records read through hooks; compared = windows of all frames, digest of the payload bytes [data start, end of last payload) (first 4096 bytes exactly + length + byte sum + position-weighted byte sum), data_end, cached_payload_end, pending records, verify outcome; "
+         "oracle on the implementation alone: every column of every frame but its window (Debug of the Frame), content hash + stored bytes of active frames, (0,0) windows of inactive ones, contiguity, 13-17 queries (10 searches with / without sketch pre-filter incl. boolean / phrase / uri: field / no-match, timeline both ways, up to 3 vector searches) as sets, reopen, verify(deep) on the closed file right after vacuum() and after reopen, payload region does not grow unless windows were shared, put + commit after the vacuum (same session or after reopen) leaves all contents readable and the new frame clear of the old ones; file length before/after is recorded (stream size, tags file-grew / file-same-size / file-shrank) as an observation; "
          "non-trivial = the table has active frames and (bytes are reclaimable or windows are shared or the log grew); distinct by digest of the model input",
-    level_text="Unbounded theorems over a byte-level model of Memvid::vacuum (frame table + file bytes from the data start; read phase into a map keyed by frame id, in-place write phase, data_end = cursor, rebuild_indexes writing an arbitrary index image at the un-updated cached_payload_end, lex batch record left pending; doctor = the same + Finalize checkpoint): for EVERY table meeting the store invariant (distinct ids, active windows in bounds; windows may overlap or be shared arbitrarily) the rewrite keeps id / status / role / metadata / length / exact bytes of every active frame and gives inactive frames (0,0); including the index rebuild the same holds for every index image whenever data start + active bytes <= cached_payload_end, which is proved to hold for every table without shared windows (pairwise-disjoint-intervals lemma), with the closed-form contiguous layout (zero-length frames get the running end), pairwise disjoint windows afterwards, the invariant re-established, the payload region not growing, and the table view used by search / timeline / index rebuild (hence Tantivy document set, time index, any function of the view) unchanged. Tied to the code by real-memory histories: model vs implementation on windows, payload bytes, data_end, pending records, verify.",
-    level_note="Property as stated is REFUTED in two places, recorded as known findings: F-C42-1 (content changes when active frames share a window and the copies overflow the old payload region: vacuum does not update cached_payload_end; witness by vm_compute, proved outside the class, class proved empty without sharing) and F-C42-2 (verify right after vacuum() is Failed on every lex-enabled memory: pending lex batch record; Passed after reopen / through doctor). F-C42-3 (the file never shrinks, usually grows slightly) is reported by a size-only stream. Trusted: Coq kernel + vm_compute; hand-written model of mutation.rs vacuum / rebuild_indexes placement / frame.rs validate_frame_bounds; the index image, TOC bytes, Tantivy / vector index contents, zstd and BLAKE3 are oracles (search / timeline equality is checked on the implementation only); offsets unbounded (no u64 overflow); no log growth during the rebuild's lex record; crash safety of the in-place rewrite belongs to C02; rank ORDER of search hits is compared as a tag only (BM25 statistics change when deleted documents leave the index), hit sets and snippets exactly; doctor's rebuild_vec_index flag is not combined (on its own it empties the vector index: doctor's defect).",
-    trusted_base=["Coq 8.16.1 kernel incl. vm_compute", "hand-written model coq/Model/Vacuum.v tied by correspondence (harness/src/c42.rs, shared driver harness/src/store.rs, hooks data_region / header_fields / wal_stats)", "index image / TOC / Tantivy / vector index / zstd / BLAKE3 as oracles"],
-    assumptions=["store invariant (distinct frame ids; active windows empty or inside [data start, data_end] and below cached_payload_end; data_end, cached_payload_end inside the file)", "offsets are unbounded naturals (no u64 overflow)", "the lex batch record appended during the rebuild does not grow the log region"],
+    level_text="Unbounded theorems over a byte-level model of Memvid::vacuum (frame table + file bytes from the data start; read phase into a map keyed by frame id, in-place write phase, data_end = cached_payload_end = cursor, rebuild_indexes writing an arbitrary index image at cached_payload_end, then TOC + log checkpoint; doctor = the same + Finalize checkpoint): for EVERY state meeting the store invariant (distinct ids, active windows empty or inside [data start, data_end], data_end inside the file; windows may overlap or be shared arbitrarily) and every index image, vacuum succeeds, keeps id / status / role / metadata / length / exact bytes of every active frame (each passes validate_frame_bounds afterwards), gives inactive frames (0,0), lays active frames out contiguously from the data start in id order (closed form; zero-length frames get the running end; frames that shared a window get separate copies), leaves windows pairwise disjoint and below the new cached_payload_end, re-establishes the invariant, leaves no pending log record (verify's WalPendingRecords check passes, also through doctor), does not grow the payload region when no windows were shared (pairwise-disjoint-intervals lemma), and leaves the table view used by search / timeline / index rebuild (hence Tantivy document set, time index, any function of the view) unchanged. Tied to the code by real-memory histories: model vs implementation on windows, payload bytes, data_end, cached_payload_end, pending records, verify.",
+    level_note="Property holds on the current tree; two defects found by this check were fixed in /repo (f791181 stale cached_payload_end: content change with shared windows; 4c0da7f sketch track not re-persisted -> unopenable file, and pending lex record -> verify Failed); the pre-fix behaviours are kept as labelled historical lemmas (historical_stale_cpe_refutation, historical_verify_failed_before_4c0da7f). File LENGTH is outside the property as stated ('compacts' is taken as the payload-region statement that is proved and checked): observed, the file never shrinks and usually grows by tens to hundreds of bytes (footer_offset = max(old, new), theorem C42_file_never_shrinks as documentation). Trusted: Coq kernel + vm_compute; hand-written model of mutation.rs vacuum / rebuild_indexes placement / frame.rs validate_frame_bounds; the index image, sketch track, TOC bytes, Tantivy / vector index contents, zstd and BLAKE3 are oracles (search / timeline equality and verify's index-decode checks are checked on the implementation only); offsets unbounded (no u64 overflow); no log growth during the rebuild's lex record; crash safety of the in-place rewrite belongs to C02; rank ORDER of search hits is compared as a tag only (BM25 statistics change when deleted documents leave the index), hit sets and snippets exactly; doctor's rebuild_vec_index flag is not combined (on its own, without vacuum, it empties the vector index: doctor's defect, reported).",
+    trusted_base=["Coq 8.16.1 kernel incl. vm_compute", "hand-written model coq/Model/Vacuum.v tied by correspondence (harness/src/c42.rs, shared driver harness/src/store.rs, hooks data_region / header_fields / wal_stats)", "index image / sketch track / TOC / Tantivy / vector index / zstd / BLAKE3 as oracles"],
+    assumptions=["store invariant (distinct frame ids; active windows empty or inside [data start, data_end]; data_end inside the file)", "offsets are unbounded naturals (no u64 overflow)", "the lex batch record appended during the rebuild does not grow the log region"],
     allowed_axioms=[],
 )
 
@@ -765,5 +765,66 @@ PROPS["C16"] = dict(
 )
 
 # checks whose model is being updated to a repaired /repo: not claimed until re-merged
-for _p in ("C42",):
-    if _p in PROPS: PROPS[_p]["hold"] = True
+
+PROPS["C20"] = dict(
+    corr_module="Corr.C20",
+    streams={
+        "fault": dict(runner="C20_run", in_t="C20_in", out_t="C20_out", shard=400),
+        "ti": dict(runner="C20_ti_run", in_t="C20_ti_in", out_t="C20_ti_out", shard=100),
+    },
+    n_quick=1000, n_thorough=60000,
+    harness_timeout=3000,
+    rule="4 committed, closed files built per run (1 plain binary frame; binary + 2 zstd text frames; chunked document + binary with default "
+         "options; 3 frames with embeddings over two commits with a deleted frame), ~75-100 KiB each; the region map is computed from the "
+         "header, the footer scan and the decoded TOC; faults: one bit flipped in every byte of the header fields, log record headers, time "
+         "index, footer and (quick: an even sample sized to n, thorough: every byte) of the payloads and the TOC, samples of the other "
+         "classes, zeroing of the first / last / a random 64-byte-aligned block of every region, truncation at every region start -1/+0/+1 "
+         "and at random offsets; every faulted copy is opened with Memvid::open and open_read_only (all frame metadata, payloads, texts, "
+         "embeddings, two searches, timeline, vector search) and verified with verify(deep) in worker processes; "
+         "non-trivial = the fault changed the file; distinct by (file, fault kind, offset, length)",
+    level_text="Unbounded theorems over the model of the checks between a changed byte and a reader (read_toc's length + commit-footer hash "
+               "comparison, track manifest checksums, validate_frame_bounds / frame_canonical_bytes, Memvid::verify check by check, the deferred "
+               "Toc::verify_checksum at the end of open_locked): hash-guarded classes detect every change (collision-freeness on the two byte "
+               "strings involved); the property as stated is refuted for the unguarded classes (payload of plain and zstd frames, time index, "
+               "log record sequence / header wal_sequence, TOC on the hinted-recovery + re-stamp path) by witnesses and, for payloads, by the "
+               "universal statement that every change is served and verify(deep) cannot see it; the detection table predicts no silent "
+               "difference outside the known classes; the repaired read / verify (separate definitions) detect every payload change. "
+               "The table is tied to the implementation by fault injection on real files.",
+    level_note="proof, partial: Tantivy, vector-index, sketch-track decoders, serde on damaged TOC bytes, header wal_offset / wal_size effects and "
+               "the log replay are observed by the correspondence run (set-valued table entries), not modelled; recover_toc's footer scan is "
+               "the C31 model, its legacy checksum scan is not modelled. Trusted: Coq kernel + vm_compute; hand-written model tied by "
+               "correspondence; BLAKE3 / zstd abstracted as arbitrary functions; harness (region map, fault injection, read comparison).",
+    trusted_base=["BLAKE3 is a Section variable H; theorems assume collision-freeness only on the byte strings compared (stated per theorem)",
+                  "zstd::decode_all, the lexical and vector index decoders are arbitrary functions in the theorems",
+                  "the region map of the harness (header / log scan / TOC manifests) decides which table entry a fault is compared with"],
+    assumptions=["a fault touches the guarded content or its stored digest but not both (every single-byte flip), or the damaged digest is not the digest of the damaged content (general form)",
+                 "file layout pre ++ toc ++ footer with header.footer_offset = |pre| for the read_toc theorems"],
+    allowed_axioms=[],
+)
+
+PROPS["C19"] = dict(
+    corr_module="Corr.C19",
+    streams={
+        "hist": dict(runner="C19_run", in_t="C19_in", out_t="C19_out", shard=4, imports=["Model.FsProto", "Model.SingleFile"]),
+        "refuse": dict(runner="C19_refuse_run", in_t="C19_refuse_in", out_t="call_out", shard=60, imports=["Model.FsProto", "Model.SingleFile"]),
+    },
+    n_quick=12, n_thorough=300,
+    harness_timeout=2400,
+    rule="(1) histories of 6-22 steps on 1-2 real memories (names: plain, with a space, non-ASCII UTF-8, without extension, dot-prefixed, not valid UTF-8) in a fresh directory that already holds unrelated files "
+         "(a text file, a sidecar of ANOTHER name, a hidden file, a sub-directory, a garbage .mv2): put (binary/text/chunked, with embeddings), commit, vacuum, drop / exit-without-commit, open, open_read_only, verify, doctor (all 16 option sets), "
+         "and REAL failing calls: capacity exceeded behind a tiny ticket, stale ticket, invalid frame id (update/delete), embedding dimension mismatch, open/open_read_only/verify/doctor of garbage and of a missing file, "
+         "commit failing inside with_staging_lock while copying (RLIMIT_FSIZE below the file size: EFBIG) and inside the closure (limit just above the file size), commit whose final renameat fails (EISDIR), lockfile::acquire / drop; "
+         "after EVERY call the directory is listed and its inotify events (create / delete / rename) are drained; compared with the model: result class, reported sidecar, the directory operations of the call, the sorted listing, names_ok, known_class; "
+         "(2) refusal matrix per memory name: 8 sidecar names x {create, open, open_read_only, doctor} planted as file / empty file / directory / live symbolic link, call, remove, call again; dangling symbolic links; two sidecars at once (which one is reported); "
+         "near-miss names that must not refuse (other spellings, sidecars of another memory, NAME.lock, a staging-like name, '-wal' alone); missing and garbage files; one open of a LOCKED memory (10 s retry); "
+         "property oracle on the implementation alone: any name in the directory other than the initial files and the memories the harness created, a vanished file, a create/open/open_read_only that ran although one of the eight names (written from the property text) exists, a refusal without one; "
+         "non-trivial = the history ran at least one committed staged commit and at least one failing call / discarded staging file (hist), a sidecar or near miss was planted (refuse); distinct by digest of the input",
+    level_text="Unbounded theorems over a directory-level model of ensure_single_file, create/open/doctor, with_staging_lock and atomic-write-file (every one of the ten ways a staged commit can end, the O_EXCL retry on random staging names): for every initial directory, every history of API calls with arbitrary success/failure of each, and every prefix, the names in the directory are exactly the initial names plus the targets of create -- outside two known classes (an OS error at the final fsync/rename leaves the staging file; the lockfile API keeps NAME.lock) which are refuted by witness and characterised exactly (the only extra names are the leaked staging names); ensure_single_file refuses iff stat succeeds on one of the eight derived names (first in test order reported), a refused call changes nothing, except for file names that are not valid UTF-8 (third known class). Suffix lists regenerated from the source; successful exit tied to the C02/C03 staged-commit recognizer. Model tied to the code by histories on real memories with really failing calls, directory listing and inotify events after every call, and the refusal matrix.",
+    level_note="Property as stated is REFUTED in three narrow classes recorded as known findings (commit-rename-error-leaves-staging, lockfile-guard-sidecar, non-utf8-name), all three reproduced on the implementation in every run; proved outside them. Doctor is not named by the property text ('create/open refuse'): the model follows the code (doctor_plan calls ensure_single_file first, so doctor refuses too) and the correspondence checks it, but the property oracle demands refusal only of create/open/open_read_only. 'Exists' is Path::exists (stat follows links): a dangling symbolic link under a sidecar name does not refuse; modelled and checked, not flagged. Trusted: Coq kernel + vm_compute; hand-written model (file contents are C02/C03's business, here only names); inotify as the record of directory operations; which exit a discarded staging file took (copy vs closure) is the harness's knowledge of the limit it set; Tantivy's scratch directory is TempDir::new() in the system temporary directory (checked by the listing, true unless TMPDIR points at the memory's directory); features parallel_segments (*.manifest.wal) and replay (NAME.session) are not default and outside the configuration under test.",
+    trusted_base=["inotify (IN_CREATE, IN_DELETE, IN_MOVED_FROM/TO) as the record of the directory operations of each call", "RLIMIT_FSIZE + ignored SIGXFSZ to make writes fail with EFBIG inside a commit; a directory placed under the memory's path to make the final renameat fail with EISDIR",
+                  "the two suffix arrays of ensure_single_file are regenerated into Gen/Consts.v by tools/translate.py (name_lists) and tied by reflexivity (C19_suffix_lists_tied)"],
+    assumptions=["outside the known class io-leak: no OS error at fchmod/fchown right after the staging file's creation, at the fsync/renameat inside AtomicWriteFile::commit, or at the unlinkat of a discard (every other failure point is covered)",
+                 "no other process adds or removes names in the directory during the history",
+                 "default feature set (no parallel_segments, no replay); TMPDIR is not the memory's directory"],
+    allowed_axioms=[],
+)
